@@ -550,7 +550,34 @@ class SCFG(Sized):
                             jt.pop(jt.index(s))
             else:
                 jt.append(new_name)
+            # If the predecessor is a region, its exiting block carries the
+            # same arcs and must be kept in sync, recursively.
+            if isinstance(block, RegionBlock):
+                self._retarget_exiting(block, successors, new_name)
             self.add_block(block.replace_jump_targets(jump_targets=tuple(jt)))
+
+    @staticmethod
+    def _retarget_exiting(
+        region_block: RegionBlock, successors: List[str], new_name: str
+    ) -> None:
+        """Recursively replace any of the given successors by new_name in the
+        exiting block of the given region."""
+        assert region_block.subregion is not None
+        assert region_block.exiting is not None
+        exiting_block = region_block.subregion.graph[region_block.exiting]
+        jt = list(exiting_block._jump_targets)
+        for s in successors:
+            if s in jt:
+                if new_name not in jt:
+                    jt[jt.index(s)] = new_name
+                else:
+                    jt.pop(jt.index(s))
+        exiting_block = exiting_block.replace_jump_targets(
+            jump_targets=tuple(jt)
+        )
+        if isinstance(exiting_block, RegionBlock):
+            SCFG._retarget_exiting(exiting_block, successors, new_name)
+        region_block.subregion.add_block(exiting_block)
 
     def insert_SyntheticExit(
         self,
@@ -656,6 +683,9 @@ class SCFG(Sized):
                 branch_variable_value += 1
                 # replace previous successor with synth_assign
                 jt[jt.index(s)] = synth_assign
+                # If the predecessor is a region, update its exiting block too
+                if isinstance(block, RegionBlock):
+                    self._retarget_exiting(block, [s], synth_assign)
             # finally, replace the jump_targets
             self.add_block(
                 self.graph.pop(name).replace_jump_targets(
